@@ -42,6 +42,7 @@ type Program struct {
 	Drifted    []string // reference functions dropped because they no longer type-check
 	specIndex  map[string]*ssa.Function
 	panicMemo  map[*ssa.Function]int // 0 unknown, 1 in progress, 2 no, 3 yes
+	constUse   map[string]map[string]bool
 	codeIndex  map[string]*ssa.Function
 }
 
